@@ -131,4 +131,55 @@ mod verif_app_wit {
             assert!(responses.iter().any(|r| r["request"]["id"] == 1 && r.get("error").is_none()), "the ordinary query of the batch is served");
         }
     }
+
+    /// C12: queries of the wrong JSON type under the INJECT plugin (default overwrite policy) -- each is answered with an error response, no panic,
+    /// and the ordinary query of the batch is served
+    #[test]
+    fn c12_wit_inject_plugin_on_non_object_queries() {
+        let mut app = load_app();
+        app.input_plugins.push(std::sync::Arc::new(crate::plugin::input::default::inject::inject_plugin::InjectInputPlugin::new(String::from("injected"), json!(1), None)));
+        for bad in [json!(5), json!("text"), json!(true), json!([1, 2])] {
+            let batch = vec![bad.clone(), json!({"id": 1, "origin_vertex": 0, "destination_vertex": 2})];
+            let responses = app.run(batch, None).expect("user-level errors are responses, not a failed run");
+            assert_eq!(responses.iter().filter(|r| r.get("error").is_some()).count(), 1, "query {} is answered with an error response: {}", bad, serde_json::to_string(&responses).unwrap());
+            assert!(responses.iter().any(|r| r["request"]["id"] == 1 && r.get("error").is_none() && r["request"]["injected"] == 1), "the ordinary query is served, with the injected field");
+        }
+    }
+
+    /// C12 / C17: an EMPTY array in the grid-search section (a degenerate grid) -- the query is answered with an error response that echoes it
+    /// (it does not vanish from the batch), alone and next to an ordinary query
+    #[test]
+    fn c12_wit_grid_search_empty_array() {
+        let app = load_app_with_grid_search();
+        let degenerate = json!({"id": 0, "origin_vertex": 0, "destination_vertex": 2, "grid_search": {"a": [], "b": [1, 2]}});
+        for with_good in [false, true] {
+            let mut batch = vec![degenerate.clone()];
+            if with_good { batch.push(json!({"id": 1, "origin_vertex": 0, "destination_vertex": 2})); }
+            let responses = app.run(batch.clone(), None).expect("user-level errors are responses, not a failed run");
+            assert_eq!(responses.len(), batch.len(), "one response per query, found {}", serde_json::to_string(&responses).unwrap());
+            assert!(responses.iter().any(|r| r.get("error").is_some() && r.get("request") == Some(&degenerate)), "the degenerate query is echoed in an error response");
+        }
+    }
+
+    /// C06 / C12: an ill-typed `query_weight_estimate` (a load-balancing hint) on ONE query must not fail the whole batch
+    #[test]
+    fn c06_wit_malformed_weight_estimate_does_not_fail_the_batch() {
+        let app = load_app();
+        let batch = vec![json!({"id": 0, "origin_vertex": 0, "destination_vertex": 2, "query_weight_estimate": "heavy"}), json!({"id": 1, "origin_vertex": 0, "destination_vertex": 2})];
+        let responses = app.run(batch, None).unwrap_or_else(|e| panic!("one malformed query failed the whole batch: {}", e));
+        assert_eq!(responses.len(), 2, "one response per query");
+        assert!(responses.iter().any(|r| r["request"]["id"] == 1 && r.get("error").is_none()), "the ordinary query is served");
+    }
+
+    /// C06: a query that fails in an input plugin AFTER grid-search expansion becomes one error response; its sibling queries are still answered
+    #[test]
+    fn c06_wit_failing_child_of_an_expansion_does_not_take_its_siblings() {
+        let mut app = load_app_with_grid_search();
+        // no-overwrite inject: fails for a query that already has the key, succeeds otherwise
+        app.input_plugins.push(std::sync::Arc::new(crate::plugin::input::default::inject::inject_plugin::InjectInputPlugin::new(String::from("tag"), json!("x"), Some(false))));
+        let q = json!({"origin_vertex": 0, "destination_vertex": 2, "grid_search": {"_case": [{"tag": "already"}, {"other": 1}, {"other": 2}]}});
+        let responses = app.run(vec![q], None).expect("user-level errors are responses, not a failed run");
+        assert_eq!(responses.len(), 3, "three queries after expansion, one response each; found {}", serde_json::to_string(&responses).unwrap());
+        assert_eq!(responses.iter().filter(|r| r.get("error").is_some()).count(), 1, "only the child that fails is an error response");
+    }
 }
